@@ -79,7 +79,7 @@ theorem tieA_step_rx_param (snr : Int) (d f0 f1 f2 : Nat) (hd : d < 256) : StepT
       have hk : ¬ d % 16 = 15 := fun e => h (h15.2 e)
       cases hf : frequencyValid c.region.id F <;>
       cases ho : rx1DrOffsetValidate c.region.id (d / 16 % 8) <;>
-      cases hg : (getDatarate c.region.id (d % 16)).isSome <;> simp [rxParamSetup, hk, hf, ho, hg, hkk, Rt.b2i]
+      cases hg : getDatarate c.region.id (d % 16) <;> simp [rxParamSetup, hk, hf, ho, hg, hkk, Rt.b2i]
   · show (rxParamSetup c.cfg c.region.id d F).2 = _
     cases hf : frequencyValid c.region.id F
     · simp [rxParamSetup, hf, hrel.cfg]
@@ -101,9 +101,9 @@ theorem tieA_step_rx_param (snr : Int) (d f0 f1 f2 : Nat) (hd : d < 256) : StepT
             simp [rxParamSetup, hf, hk, ho, hrel.cfg, Rx.cfgOf]
           · rename_i h
             have hk : ¬ d % 16 = 15 := fun e => h (h15.2 e)
-            cases hg : (getDatarate c.region.id (d % 16)).isSome
+            cases hg : getDatarate c.region.id (d % 16)
             · simp [hg, hkk] at h1
-            · simp only [hkk, hg, if_true, Option.some.injEq] at h1
+            · simp [hkk, hg] at h1
               subst h1
               simp [rxParamSetup, hf, hk, ho, hg, hkk, hrel.cfg, Rx.cfgOf]
       · rename_i hne
@@ -115,10 +115,9 @@ theorem tieA_step_rx_param (snr : Int) (d f0 f1 f2 : Nat) (hd : d < 256) : StepT
           · exact (hne _ _ rfl).elim
           · rename_i h
             have hk : ¬ d % 16 = 15 := fun e => h (h15.2 e)
-            cases hg : (getDatarate c.region.id (d % 16)).isSome
+            cases hg : getDatarate c.region.id (d % 16)
             · simp [rxParamSetup, hf, hk, ho, hg, hrel.cfg]
-            · simp only [hkk, hg, if_true] at hne
-              exact (hne _ _ rfl).elim
+            · simp [hkk, hg] at hne
 
 #print axioms tieA_step_rx_param
 end TieA.Macs
